@@ -299,15 +299,33 @@ Proof. unfold in_range. vm_compute. split; [discriminate | reflexivity]. Qed.
 Lemma seed0_range : in_range seed0.
 Proof. apply clear_range. Qed.
 
+Lemma rnd_fn_seed_range s arg : in_range s ->
+  match rnd_fn s arg with Ok (s', _) => in_range s' | _ => True end.
+Proof.
+  intros Hs. destruct arg as [v|]; cbn [rnd_fn].
+  - destruct (to_single v) as [f| | |]; cbn [bind]; try exact I.
+    destruct (sng_is_zero f); [exact Hs | apply cycle_range].
+  - apply cycle_range.
+Qed.
+
+Lemma draws_range args : forall s, in_range s -> in_range (fst (draws s args)).
+Proof.
+  induction args as [|a r IH]; intros s Hs; cbn [draws]; [exact Hs|].
+  pose proof (rnd_fn_seed_range s a Hs) as H.
+  destruct (rnd_fn s a) as [[s1 b]| | |]; try exact Hs.
+  specialize (IH s1 H). destruct (draws s1 r) as [s2 l]. exact IH.
+Qed.
+
 Lemma step_range s o : in_range s -> in_range (fst (step s o)).
 Proof.
-  intros Hs. destruct o as [arg|v|]; cbn [step].
+  intros Hs. destruct o as [arg|v| |f args]; cbn [step].
   - destruct arg as [v|]; cbn [rnd_fn].
     + destruct (to_single v) as [f| | |]; cbn [bind fst]; try exact Hs.
       destruct (sng_is_zero f); cbn [fst]; [exact Hs | apply cycle_range].
     + cbn [fst]. apply cycle_range.
   - destruct v; cbn [randomize_fn fst]; try exact Hs; apply reseed_tail_range.
   - cbn [fst]. apply clear_range.
+  - pose proof (draws_range args s Hs) as H. destruct (draws s args) as [s' r]. exact H.
 Qed.
 
 Theorem exec_range ops : forall s, in_range s -> in_range (exec s ops).
@@ -560,4 +578,61 @@ Proof.
   unfold vstep, vop_op. cbn [step].
   rewrite (rnd_negative_reseeds s' _ f Hf Hz Hn), (rnd_negative_reseeds s2 _ f Hf Hz Hn).
   split; reflexivity.
+Qed.
+
+(* ------------------------------------------------------------------ *)
+(* several draws in one expression *)
+
+(* two plain draws in one expression are two different values: RND = RND is false *)
+Lemma two_draws_differ s :
+  step s (OExpr (XCmp 0) [None; None]) = (rnd_cycle (rnd_cycle s), Ok [0]).
+Proof.
+  cbn [step draws rnd_fn rmap bind expr_result]. f_equal. f_equal.
+  unfold rel_holds. cbn [Z.eqb].
+  assert (H : rnd_cycle (rnd_cycle s) <> rnd_cycle s).
+  { apply (full_period_no_early_return (rnd_cycle s) 1). lia. }
+  apply Z.eqb_neq in H. rewrite Z.eqb_sym, H. reflexivity.
+Qed.
+
+(* D1 - D2 with plain draws: the difference of the two successive sequence values *)
+Lemma two_draws_sub s :
+  step s (OExpr XSub [None; None]) =
+  (rnd_cycle (rnd_cycle s), Ok (diff_bytes (rnd_cycle s) (rnd_cycle (rnd_cycle s)))).
+Proof. reflexivity. Qed.
+
+(* diff_bytes a b denotes (a - b) / 2^24 exactly *)
+Lemma diff_bytes_valQ a b : in_range a -> in_range b ->
+  (sng_valQ (diff_bytes a b) == (a - b) # 16777216)%Q.
+Proof.
+  intros Ha Hb. unfold diff_bytes. destruct (a =? b) eqn:E.
+  - apply Z.eqb_eq in E. subst b. rewrite Z.sub_diag. vm_compute. reflexivity.
+  - apply Z.eqb_neq in E. unfold in_range in Ha, Hb.
+    assert (Hd : in_range (Z.abs (a - b))) by (unfold in_range; lia).
+    assert (Hpos : 0 < Z.abs (a - b)) by lia.
+    pose proof (rnd_bytes_scale _ Hd) as (Hlen & Hbytes & _ & H1).
+    destruct (H1 Hpos) as (He & Hz & Hneg & Hm).
+    destruct (a <? b) eqn:L.
+    + (* negative: sign bit set *)
+      remember (rnd_bytes (Z.abs (a - b))) as r eqn:Er.
+      destruct r as [|b0 [|b1 [|b2 [|e [|x t]]]]]; try discriminate Hlen.
+      unfold sng_is_zero, sng_is_neg, sng_mant, sng_exp, sng_byte in *. cbn [nth] in *.
+      unfold bytes_ok in Hbytes. inversion Hbytes as [|? ? _ Hb1]. inversion Hb1 as [|? ? _ Hb2].
+      inversion Hb2 as [|? ? B2 _]. unfold byte_ok in B2.
+      unfold sng_valQ, sng_is_zero, sng_is_neg, sng_mant, sng_exp, sng_byte. cbn [nth].
+      rewrite Hz.
+      assert (N1 : (128 <=? b2 + 128) = true) by lia. rewrite N1.
+      assert (N2 : (b2 + 128) mod 128 = b2 mod 128).
+      { replace (b2 + 128) with (b2 + 1 * 128) by lia. apply Z.mod_add. lia. }
+      rewrite N2.
+      destruct (e <=? 152) eqn:E2; [|lia].
+      unfold Qeq. cbn [Qnum Qden].
+      rewrite Z2Pos.id by (apply Z.pow_pos_nonneg; lia).
+      change (Z.pos 16777216) with (2 ^ 24).
+      replace (Z.abs (a - b)) with (- (a - b)) in Hm by lia. lia.
+    + assert (Eabs : Z.abs (a - b) = a - b) by lia. rewrite Eabs in *.
+      unfold sng_valQ. rewrite Hz, Hneg.
+      destruct (sng_exp (rnd_bytes (a - b)) <=? 152) eqn:E2; [|lia].
+      unfold Qeq. cbn [Qnum Qden].
+      rewrite Z2Pos.id by (apply Z.pow_pos_nonneg; lia).
+      change (Z.pos 16777216) with (2 ^ 24). exact Hm.
 Qed.
